@@ -195,6 +195,7 @@ package keeper
 // ---- writers of the aggregate history (C08) ----
 
 //@ func (k Keeper).SetAggregate(ctx, report) (err)
+//@ uses inline_at_calls
 //@ requires [report_present] report != nil
 //@ requires [block_time_not_before_1970] unixms(blocktime(ctx)) >= 0
 //@ requires [sequence_number_below_2_64] get0(oracle.Nonces, bytes(report.QueryId)) < 18446744073709551615
@@ -324,3 +325,29 @@ package keeper
 //@ ensures [open_window_is_detected] old(oracle.CyclelistSequencer) != oracle.CyclelistSequencer ==> called(GetCyclelist)
 //@ ensures [moves_to_the_next_query_wrapping_around] called(GetCyclelist) ==> oracle.CyclelistSequencer == (old(oracle.CyclelistSequencer) + 1 < count(oracle.Cyclelist) ? old(oracle.CyclelistSequencer) + 1 : 0)
 //@ ensures [rotation_counter_stays_within_the_list] oracle.CyclelistSequencer < count(oracle.Cyclelist)
+
+// ---- end-of-block aggregation of closed rounds (C07, C02, C06) ----
+// A round (Query entry) with HasRevealedReports and Expiration <= block height is aggregated and removed.
+// Store invariants assumed on entry (established by SetValue, see its contract): a round marked as having reports
+// is stored under its own id and has at least one report -- somebytes("a_reporter", q, i) names one --; reports
+// carry the bech32 string of the reporter in their key, a power between 1 and 2^63, a parsable value; all reports
+// of one round belong to one query.
+
+//@ define round(q, i) = oracle.Query[pair(q, i)]
+//@ define closed(q, i) = round(q, i).HasRevealedReports && round(q, i).Expiration <= blockheight(ctx)
+
+//@ func (k Keeper).SetAggregatedReport(ctx) (err)
+//@ requires [revealed_rounds_have_a_report] forall q bytes :: forall i int :: has(oracle.Query, pair(q, i)) && round(q, i).HasRevealedReports ==> round(q, i).Id == i && has(oracle.Reports, triple(q, somebytes("a_reporter", q, i), i))
+//@ requires [reports_are_well_formed] forall q bytes :: forall r bytes :: forall i int :: has(oracle.Reports, triple(q, r, i)) ==> rep(q, r, i).Reporter == accstr(r) && 1 <= rep(q, r, i).Power && rep(q, r, i).Power < 9223372036854775808 && ishex(strip0x(rep(q, r, i).Value))
+//@ requires [a_round_belongs_to_one_query] forall q1 bytes :: forall q2 bytes :: forall r1 bytes :: forall r2 bytes :: forall i int :: has(oracle.Reports, triple(q1, r1, i)) && has(oracle.Reports, triple(q2, r2, i)) ==> q1 == q2
+//@ requires [block_time_not_before_1970] unixms(blocktime(ctx)) >= 0
+//@ requires [tips_are_non_negative] forall q bytes :: forall i int :: has(oracle.Query, pair(q, i)) ==> round(q, i).Amount >= 0
+//@ modifies oracle.Query, oracle.Aggregates, oracle.Nonces, bank.bal, reporter.SelectorTips, H_*, A_*
+//@ ensures [closed_rounds_with_reports_disappear] err == nil ==> forall q bytes :: forall i int :: old(has(oracle.Query, pair(q, i))) && old(closed(q, i)) ==> !has(oracle.Query, pair(q, i))
+//@ ensures [other_rounds_are_untouched] forall q bytes :: forall i int :: !(old(has(oracle.Query, pair(q, i))) && old(closed(q, i))) ==> (has(oracle.Query, pair(q, i)) <==> old(has(oracle.Query, pair(q, i)))) && round(q, i) == old(round(q, i))
+//@ loop 0 "for ; idsIterator.Valid(); idsIterator.Next()"
+//@ loop 0 invariant [rounds_still_to_visit_are_as_on_entry] forall j in [itpos(idsIterator), itlen(idsIterator)) :: has(oracle.Query, itkey(idsIterator, j)) && oracle.Query[itkey(idsIterator, j)] == old(oracle.Query[itkey(idsIterator, j)])
+//@ loop 0 invariant [visited_closed_rounds_are_gone] forall j in [0, itpos(idsIterator)) :: old(oracle.Query[itkey(idsIterator, j)]).Expiration <= blockheight(ctx) ==> !has(oracle.Query, itkey(idsIterator, j))
+//@ loop 0 invariant [only_visited_closed_rounds_changed] forall q bytes :: forall i int :: !(old(has(oracle.Query, pair(q, i))) && old(closed(q, i))) ==> (has(oracle.Query, pair(q, i)) <==> old(has(oracle.Query, pair(q, i)))) && round(q, i) == old(round(q, i))
+//@ loop 0 invariant [reports_untouched] oracle.Reports == old(oracle.Reports)
+//@ loop 0 invariant [payees_present] forall j in [0, len(reportersToPay)) :: allocated(reportersToPay[j]) && allocated(reportersToPay[j].Reporters)
